@@ -321,7 +321,8 @@ Definition check_with (chk : oracles -> conn_cfg -> mst -> tev -> bool) (c : con
   let k := corr_both c in
   if k =? 4 then 4
   else k + moni (accepts (step_with (chk (case_oracles c) (cc_cfg c))) m_init (obs_trace c)
-                 && negb (outcome_eqb (cc_outcome c) (OErr KPanic))).   (* a crashed handler satisfies nothing *)
+                 && negb (outcome_eqb (cc_outcome c) (OErr KPanic))     (* a crashed handler satisfies nothing *)
+                 && negb (Z.testbit (cc_flags c) 4)).   (* nothing may follow an Encryption Response whose secret is no AES-128 key *)
 
 Definition check_c06 := check_with (fun _ _ => chk_c06).
 Definition check_c01 := check_with chk_c01.
